@@ -29,7 +29,7 @@ class C05(Prop):
     id = 'C05'
     lean_modules = ['RSocketModel.Props.C05', 'RSocketModel.Props.C05Sites']
     technique = 'Lean 4 proof (invariant over all enqueue/step interleavings; measure for drain) + differential correspondence with the real sender task'
-    level_text = ('c05_send_sites / c05_only_setup_jumps_the_queue (Props/C05Sites.lean): the table of every call that queues a frame - which of send_frame / send_priority_frame / send_request each call site uses, read from the source with ast on every run - is the one the send-queue model assumes: only connect() with the SETUP frame uses the priority path. c05_stream_order / c05_wire_is_prefix / c05_every_prefix (per-stream order and contiguity at every moment, all interleavings of queueing and '
+    level_text = ('c05_only_setup_jumps_the_queue / c05_stream_helpers_queue_at_the_back (Props/C05Sites.lean), over the table of every call that queues a frame - which of send_frame / send_priority_frame / send_request each call site uses, read from the source with ast on every run: only connect() with the SETUP frame uses the priority path, the helpers of the stream handlers all queue at the back. c05_stream_order / c05_wire_is_prefix / c05_every_prefix (per-stream order and contiguity at every moment, all interleavings of queueing and '
                   'sender steps), c05_drains and c05_drained_exact (no starvation, everything sent once) are kernel-checked on a model of the send queue; '
                   'c05_counterexample_head_only pins the pre-fix defect. The model is run against a real RSocketServer whose transport blocks in send until released.')
     level_note = ('Trusted: Lean kernel + standard axioms; asyncio.Queue FIFO and the order of put_nowait calls; model fidelity as far as the correspondence reaches '
